@@ -182,6 +182,7 @@ def defect_stream(ctx):
     has one of the six statuses, written = reported compiled, and (errors ignored) modules that do not depend on the
     defective one are compiled"""
     import random
+    import re
     from gen import mibgen
     from impl import pipeline
     res = ctx.res
@@ -209,7 +210,10 @@ def defect_stream(ctx):
             continue
         st = {k: str(v) for k, v in st.items()}
         for name in texts:
-            if st.get(name) not in STATUSES:
+            # a file may turn out to hold a module of another name (the defect hit the header): the status is then
+            # reported under the name the module gives itself
+            inside = re.findall(r'([A-Za-z][A-Za-z0-9-]*)\s+DEFINITIONS\s*::=', bad.get(name, ''))
+            if st.get(name) not in STATUSES and not (inside and all(st.get(x) in STATUSES for x in inside)):
                 res.oracle_failures.append({'key': 'accounted', 'what': 'requested module %s has status %r (defect %s in %s)' % (name, st.get(name), kind, victim),
                                             'input': inp})
         for name in out:
